@@ -22,7 +22,20 @@ type selWait struct {
 type waitEntry struct {
 	w      *selWait
 	caseIx int
-	val    value // parked sender: the value offered
+	val    value      // parked sender: the value offered
+	elem   types.Type // parked receiver: the element type (close hands it the zero value)
+}
+
+// closeWake is what close(c) does to the goroutines parked on c, as in Go: every parked receiver -
+// a plain receive or a select case - is completed NOW with (zero value, false); a select parked on
+// several channels is thereby committed to this case, and a value sent on one of its other channels
+// before the goroutine gets to run does not reach it. Parked senders panic when they run.
+func (c *chanv) closeWake() {
+	for _, e := range c.recvQ {
+		if !e.w.done {
+			e.w.done, e.w.caseIx, e.w.val, e.w.recvOk = true, e.caseIx, zero(e.elem), false
+		}
+	}
 }
 
 func (c *chanv) firstParked(q []*waitEntry) (int, *waitEntry) {
@@ -122,7 +135,7 @@ func (c *chanv) recvT(elem types.Type) (value, bool) {
 		return v, ok
 	}
 	w := &selWait{}
-	c.recvQ = append(c.recvQ, &waitEntry{w: w})
+	c.recvQ = append(c.recvQ, &waitEntry{w: w, elem: elem})
 	defer func() { c.recvQ = removeEntry(c.recvQ, w) }()
 	sch.block("channel receive", func() bool { return w.done || c.closed })
 	if w.done {
@@ -174,7 +187,7 @@ func selectT(cases []selCase, blocking bool) (chosen int, recv value, recvOk boo
 			if cs.send {
 				cs.ch.sendQ = append(cs.ch.sendQ, &waitEntry{w: w, caseIx: i, val: cs.val})
 			} else {
-				cs.ch.recvQ = append(cs.ch.recvQ, &waitEntry{w: w, caseIx: i})
+				cs.ch.recvQ = append(cs.ch.recvQ, &waitEntry{w: w, caseIx: i, elem: cs.elem})
 			}
 		}
 		if !anyChan {
